@@ -36,6 +36,9 @@ type Engine struct {
 	writeSets  map[*ssa.Function]map[string]bool
 	wsBusy     map[*ssa.Function]bool
 	mu         sync.Mutex
+	ftBlock    map[string][2]int // named func type key -> [lo,hi] id block of its members
+	ftMembers  map[string][]*ssa.Function
+	tableCache map[string][]string
 }
 
 func loadEngine(repo string) (*Engine, error) {
@@ -108,6 +111,30 @@ func loadEngine(repo string) (*Engine, error) {
 	}
 	if err := e.bindContracts(); err != nil {
 		return nil, err
+	}
+	// closed world of named func types that have a functype contract: contiguous id blocks
+	e.ftBlock = map[string][2]int{}
+	e.ftMembers = map[string][]*ssa.Function{}
+	e.tableCache = map[string][]string{}
+	byType := map[string][]*ssa.Function{}
+	for fn, c := range e.ftypeMembers() {
+		k := c.Pkg + "::" + c.Target
+		byType[k] = append(byType[k], fn)
+	}
+	var tks []string
+	for k := range byType {
+		tks = append(tks, k)
+	}
+	sort.Strings(tks)
+	for _, k := range tks {
+		fns := byType[k]
+		sort.Slice(fns, func(i, j int) bool { return fns[i].String() < fns[j].String() })
+		lo := len(e.fnByID)
+		for _, f := range fns {
+			e.fnID(f)
+		}
+		e.ftBlock[k] = [2]int{lo, len(e.fnByID) - 1}
+		e.ftMembers[k] = fns
 	}
 	return e, nil
 }
@@ -285,4 +312,63 @@ func (e *Engine) inlinable(f *ssa.Function) bool {
 		}
 	}
 	return false
+}
+
+// callsTagged: does fn (or a function it would inline) call a function whose
+// contract carries property id?
+func (e *Engine) callsTagged(u *Unit, id string) bool {
+	seen := map[*ssa.Function]bool{}
+	var visit func(f *ssa.Function, depth int) bool
+	visit = func(f *ssa.Function, depth int) bool {
+		if f == nil || seen[f] || depth > maxInlineDepth || f.Blocks == nil {
+			return false
+		}
+		seen[f] = true
+		for _, b := range f.Blocks {
+			for _, in := range b.Instrs {
+				var cc *ssa.CallCommon
+				switch c := in.(type) {
+				case *ssa.Call:
+					cc = &c.Call
+				case *ssa.Defer:
+					cc = &c.Call
+				}
+				if cc == nil {
+					continue
+				}
+				callee := cc.StaticCallee()
+				if callee == nil {
+					if nt, ok := cc.Value.Type().(*types.Named); ok && !cc.IsInvoke() {
+						if c := e.specs.FTypes[nt.Obj().Pkg().Path()+"::"+nt.Obj().Name()]; c != nil && contractMentions(c, id) {
+							return true
+						}
+					}
+					continue
+				}
+				if c := e.contractOf[callee]; c != nil {
+					if contractMentions(c, id) {
+						return true
+					}
+					continue
+				}
+				full := callee.String()
+				if c := e.specs.Externs[full]; c != nil {
+					if contractMentions(c, id) {
+						return true
+					}
+					continue
+				}
+				if e.inlinable(callee) && visit(callee, depth+1) {
+					return true
+				}
+			}
+		}
+		for _, a := range f.AnonFuncs {
+			if visit(a, depth+1) {
+				return true
+			}
+		}
+		return false
+	}
+	return visit(u.Fn, 0)
 }
